@@ -793,6 +793,8 @@ def At(x, i):
         return x.get(i)
     if isinstance(x, CList):
         if isinstance(i, int):
+            if not (0 <= i < len(x.items)):
+                return UNDEF      # specs are total (eagerly evaluated guarded clauses)
             return x.items[i]
         t = None
         for k in range(len(x.items) - 1, -1, -1):
